@@ -145,6 +145,21 @@ def sequences(rng, pop):
         else:
             d = rng.choice(mzs)
             spec = rng_spec(d['zones'], False)
+            if rng.random() < 0.3:
+                # whole numbers that arrive as floats: a quotient, or the
+                # variable of an interpolating loop
+                spec = [['bin', '/', ['num', 2 * spec[0][1]], ['num', 2]],
+                        spec[1] and ['bin', '/', ['num', 4 * spec[1][1]],
+                                     ['num', 4]]]
+            if rng.random() < 0.15 and d['zones'] >= 4:
+                top = d['zones'] - 1 - (d['zones'] - 1) % 3
+                prog.append(['repeat', 'interp',
+                             {'n': ['num', 4], 'var': 'lx', 'a': ['num', 0],
+                              'b': ['num', top]},
+                             [colour(), ['action', 'set', [
+                                 ['zone', ['str', d['label']], ['var', 'lx'],
+                                  None]]]]])
+                continue
             prog.append(['action', 'set', [['zone', ['str', d['label']],
                                             spec[0], spec[1]]]])
     return prog, {'clause-sequences'}, []
